@@ -27,7 +27,15 @@ def main():
         if not spec or not spec.get("manifest"):
             na.append(dict(property_id=pid, reason=(spec or {}).get("na_reason", "engine not built yet (see DESIGN.md staging)")))
             continue
-        m = spec["manifest"]
+        m = dict(spec["manifest"])
+        tied = [x for x in spec.get("extra_props", []) if "GoTie" in x]
+        frags = [x for x in spec.get("extra_props", []) if "GoTie" not in x]
+        if tied:
+            m["technique"] = m.get("technique", "Coq proof over a Gallina model + model/implementation correspondence") + \
+                " + source-to-Gallina translator with tie theorems (generated definition = model definition, re-proved against the current source on every run)"
+            m["note"] = m["note"] + "; the Go functions listed in notes/gotrans.md for this property are translated from /repo's current source on every run (coq/Generated/Go*.v) and proved equal to the model's definitions (%s)" % ", ".join(tied)
+        if frags:
+            m["note"] = m["note"] + "; further fragments of the operational model and their theorems: " + ", ".join(frags)
         checks.append(dict(
             property_id=pid,
             quick_cmd="./check %s --tier quick" % pid,
